@@ -136,10 +136,10 @@ pub fn judge(w: &World, code: &str) -> Result<&'static str, String> {
                 }
                 if &rdv != sdv {
                     // same base dimensions with exponents that differ only by floating-point rounding?
-                    let near = rdv.len() == sdv.len()
-                        && rdv.iter().all(|(k, (n, d))| {
-                            sdv.get(k).map(|(n2, d2)| ((*n as f64 / *d as f64) - (*n2 as f64 / *d2 as f64)).abs() < 1e-9).unwrap_or(false)
-                        });
+                    // (a base dimension missing on one side has exponent 0 there: `(2 m)^((0.1 - 0.3) + 0.2)`
+                        // is statically a scalar and `m^(2^-55)` at run time)
+                    let ex = |dv: &DV, k: &String| dv.get(k).map(|(n, d)| *n as f64 / *d as f64).unwrap_or(0.0);
+                    let near = rdv.keys().chain(sdv.keys()).all(|k| (ex(&rdv, k) - ex(sdv, k)).abs() < 1e-9);
                     if near {
                         return Err(format!(
                             "CLASS:composite-constant-exponent-rounding {what} is {q}: the run-time exponent is the floating-point value of the constant exponent expression turned into a fraction ({}), the checker computed it exactly ({})",
